@@ -232,7 +232,7 @@ RECIPES = {
                 speaks=lambda e: e.get("op") in ("ByEntropy", "NewMnemonic", "Read", "Crash"),
                 rule="every entropy length 0..4096 (+nil, +2^16/2^20/2^24 +-{0,1,4}) and every word count -4096..4096 (+extremes of int) under a counting source; "
                      "distinct by (operation, length or count, language)"),
-    "C14": dict(mc=[MC_NAMES], record=phased_recorder("C14"), props=["C14"],
+    "C14": dict(mc=[MC_NAMES, lambda t, s_: mc_history(t, s_)], record=phased_recorder("C14"), props=["C14"],
                 speaks=lambda e: "panicked" in e,
                 rule="product of argument classes (21 Language values x strings incl. every invalid-UTF-8 shape x entropy sizes x counts), fuzzed bytes, "
                      "multi-megabyte inputs, each call under recover and a 120 s watchdog; distinct by (operation, arguments)"),
@@ -506,7 +506,7 @@ def replay_c07(path, binary):
     return (len(mine) == 0, "re-ran a fresh process under strace: %d events, %d failing" % (len(lines), len(mine)))
 
 
-RECIPES["C07"] = dict(mc=[], record=record_c07, replay=replay_c07, props=["C07", "DRIFT"],
+RECIPES["C07"] = dict(mc=[lambda t, s_: mc_history(t, s_)], record=record_c07, replay=replay_c07, props=["C07", "DRIFT"],
                       speaks=lambda e: e.get("op") in ("Swap", "NewMnemonic", "OSRandom"),
                       rule="one fresh process per (language, word count): two NewMnemonic calls on the untouched default source under strace (the bytes the kernel's getrandom "
                            "delivered must encode to the returned mnemonic), the identity of the pre-swap source, a scripted call, and a default call after swapping back; "
